@@ -240,6 +240,14 @@ func init() {
 					}
 					nres++
 					construct := fmt.Sprintf("%s result#%d", sp.what, nres)
+					if mcall == nil && sp.rel != "" {
+						// `lisp.Bool(compareTimes(t1, t2) < 0)`: a pure three-way helper over two time values
+						// (`return a.Compare(b)`) tested against zero in place
+						if o, ok := timeOrderViaPureCompare(c, u, idx, sp.what, sp.rel, rs, construct); ok {
+							obs = append(obs, o)
+							continue
+						}
+					}
 					if mcall == nil {
 						obs = append(obs, mkOb(c, "TIME.order-mirror", u, construct, rs, Undecided, "the result uses the time operands without a time.Time method call (`"+types.ExprString(rs.Results[0])+"`): not a recognised comparison idiom", true))
 						continue
@@ -1232,4 +1240,93 @@ func helperResultCells(c *Ctx, u FuncUnit, argsP types.Object, cellOf func(ast.E
 		}
 	}
 	return out
+}
+
+// timeOrderViaPureCompare: rs returns outer(h(x, y) OP 0) (or 0 OP h(x, y)) where h is a function of the
+// package whose every return is <param i>.Compare(<param j>) of its two time.Time parameters, and x, y are
+// time operands of u traced (idx) to args.Cells[0] / args.Cells[1].
+func timeOrderViaPureCompare(c *Ctx, u FuncUnit, idx map[types.Object]int, what, want string, rs *ast.ReturnStmt, construct string) (Obligation, bool) {
+	info := u.Pkg.TypesInfo
+	outer, ok := ast.Unparen(rs.Results[0]).(*ast.CallExpr)
+	if !ok || len(outer.Args) != 1 {
+		return Obligation{}, false
+	}
+	var hc *ast.CallExpr
+	rel, ok := signTestRelation(info, outer.Args[0], func(e ast.Expr) bool {
+		ce, ok := ast.Unparen(e).(*ast.CallExpr)
+		if ok && len(ce.Args) == 2 {
+			hc = ce
+			return true
+		}
+		return false
+	})
+	if !ok || hc == nil {
+		return Obligation{}, false
+	}
+	h := originOf(Callee(info, hc))
+	hd := c.declOf[h]
+	if h == nil || hd == nil || hd.Body == nil || h.Pkg() != u.Obj.Pkg() {
+		return Obligation{}, false
+	}
+	hu := FuncUnit{h, hd, c.pkgOf[hd]}
+	hinfo := hu.Pkg.TypesInfo
+	hps := paramObjs(hu)
+	if len(hps) != 2 || !isTimeTime(hps[0].Type()) || !isTimeTime(hps[1].Type()) {
+		return Obligation{}, false
+	}
+	// every return: p_r.Compare(p_a)
+	ri, ai, n := -1, -1, 0
+	for _, hr := range returnsOf(hd.Body) {
+		if len(hr.Results) != 1 {
+			return Obligation{}, false
+		}
+		cmp, ok := ast.Unparen(hr.Results[0]).(*ast.CallExpr)
+		if !ok || len(cmp.Args) != 1 {
+			return Obligation{}, false
+		}
+		se, ok := ast.Unparen(cmp.Fun).(*ast.SelectorExpr)
+		f := Callee(hinfo, cmp)
+		if !ok || se.Sel.Name != "Compare" || f == nil || f.Pkg() == nil || f.Pkg().Path() != "time" {
+			return Obligation{}, false
+		}
+		r, a := -1, -1
+		for i, p := range hps {
+			if identObj(hinfo, se.X) == p {
+				r = i
+			}
+			if identObj(hinfo, cmp.Args[0]) == p {
+				a = i
+			}
+		}
+		if r < 0 || a < 0 || r == a || (n > 0 && (r != ri || a != ai)) {
+			return Obligation{}, false
+		}
+		ri, ai = r, a
+		n++
+	}
+	if n == 0 {
+		return Obligation{}, false
+	}
+	// the arguments of the call, as operands of u
+	ops := [2]int{-1, -1}
+	for i, a := range hc.Args {
+		if k, ok := idx[identObj(info, a)]; ok {
+			ops[i] = k
+		}
+	}
+	if ops[0] < 0 || ops[1] < 0 || ops[0] == ops[1] {
+		return mkOb(c, "TIME.order-mirror", u, construct, rs, Undecided, "the operands of "+hu.Name()+" are not the two time arguments of the builtin", true), true
+	}
+	// h(x, y) = x.Compare(y) when ri == 0; mirror when the helper compares the other way round, and again
+	// when the call passes the second operand first
+	if ri == 1 {
+		rel = mirrorRel(rel)
+	}
+	if ops[0] == 1 {
+		rel = mirrorRel(rel)
+	}
+	if rel == want {
+		return mkOb(c, "TIME.order-mirror", u, construct, rs, Proved, fmt.Sprintf("%s = operand0 %s operand1, through %s (operand.Compare(operand)) tested against 0", what, rel, hu.Name()), true), true
+	}
+	return mkOb(c, "TIME.order-mirror", u, construct, rs, Violated, fmt.Sprintf("%s is computed as operand0 %s operand1 (three-way result of %s tested against 0), not operand0 %s operand1: the three predicates no longer partition pairs of instants in agreement with time-from", what, rel, hu.Name(), want), true), true
 }
